@@ -9,7 +9,7 @@
 (*   <<"VIOL", line, scenario, index, tag, finding>>   and  <<"HITS", f>>.  *)
 (* The property to check is selected with the environment variable ONLY.    *)
 (***************************************************************************)
-EXTENDS Findings, Conf, Json, IOUtils
+EXTENDS Findings, Conf, Extras, Json, IOUtils
 
 Rec  == ndJsonDeserialize(IOEnv.TRACE)
 Only == IOEnv.ONLY
@@ -41,13 +41,15 @@ TraceStep ==
              /\ hits' = Bump(hits, {"events", "scenarios"})
              /\ nviol' = nviol
              /\ keys' = keys
-        ELSE LET bad == IF Only = "CONF" THEN {} ELSE Violations(Only, S, e, T, aux)
+        ELSE LET bad == IF Only \in {"CONF", "EXTRA"} THEN {} ELSE Violations(Only, S, e, T, aux)
                  ant == IF Only = "CONF"
                         THEN (IF e.kind \in {"block", "query"} \/ Modelled(S, e) THEN {"modelled", e.tx.m} ELSE {"unmodelled"})
                         ELSE Antecedents(Only, S, e, T, aux)
                  drift == IF Only = "CONF" THEN DriftOf(S, e, T) ELSE {}
+                 extra == IF Only = "EXTRA" THEN X_All(S, e, T) ELSE {}
              IN /\ Report(l + 1, e, bad, S, T)
                 /\ \A d \in drift : PrintT(<<"DRIFT", l + 1, e.scn, e.i, d, e.tx.m>>)
+                /\ \A d \in extra : PrintT(<<"DRIFT", l + 1, e.scn, e.i, d, e.tx.m>>)
                 /\ aux' = AuxNext(aux, S, e, T)
                 /\ hits' = Bump(hits, ant \cup {"events"})
                 /\ nviol' = nviol + Cardinality(bad)
